@@ -494,19 +494,47 @@ def _counts_agree(ctx, m, n_ids, feats, what):
 
 
 def _same_object_case(ctx, rng, n_ids):
-    """ComposedPopulationModel([m] * k): one object given for k sub-models
-    still means k sub-models with their own dimensions and names"""
+    """one population model object reachable through several sub-models of
+    a composite - listed k times, once bare and once under a reduced
+    wrapper, under two reduced wrappers with different fixed values, or
+    once more inside a nested composite - still means separate sub-models
+    with their own dimensions and names: everything equals the composite
+    built from separate objects"""
     k = int(rng.integers(2, 4))
     cls = [chi.LogNormalModel, chi.GaussianModel, chi.PooledModel,
-           chi.TruncatedGaussianModel][int(rng.integers(4))]
+           chi.TruncatedGaussianModel, chi.HeterogeneousModel][
+        int(rng.integers(5))]
+    shape = ['listed', 'under_reduced', 'two_reduced', 'nested'][
+        int(rng.integers(4))]
     feats = {'mode': 'same_object', 'class': cls.__name__, 'k': k,
-             'n_ids': n_ids}
-    ctx.case(('submodel', 'same_object', cls.__name__, k), True,
+             'n_ids': n_ids, 'shape': shape}
+    ctx.case(('submodel', 'same_object', cls.__name__, k, shape), True,
              sample=feats)
+
+    def build(new):
+        """new(): the model object for the next occurrence"""
+        if shape == 'listed':
+            return chi.ComposedPopulationModel([new() for _ in range(k)])
+        if shape == 'under_reduced':
+            subs = [chi.ReducedPopulationModel(new()), new()]
+            return chi.ComposedPopulationModel(
+                subs if k == 2 else subs[::-1])
+        if shape == 'two_reduced':
+            subs = []
+            for v in (0.3, 0.5):
+                r = chi.ReducedPopulationModel(new())
+                nm = r.get_parameter_names()
+                if len(nm) > 1:
+                    r.fix_parameters({nm[-1]: v})
+                subs.append(r)
+            return chi.ComposedPopulationModel(subs)
+        return chi.ComposedPopulationModel([
+            new(), chi.ComposedPopulationModel([new(), chi.PooledModel()])])
     try:
-        pop = chi.ComposedPopulationModel([cls()] * k)
+        one = cls()
+        pop = build(lambda: one)
         pop.set_n_ids(n_ids)
-        ref = chi.ComposedPopulationModel([cls() for _ in range(k)])
+        ref = build(cls)
         ref.set_n_ids(n_ids)
     except Exception as e:      # noqa
         ctx.violation_exc('construction_raises', e, {'case': feats}, feats)
@@ -515,9 +543,9 @@ def _same_object_case(ctx, rng, n_ids):
     names, want = pop.get_parameter_names(), ref.get_parameter_names()
     if names != want or len(set(names)) != len(names):
         _bad(ctx, 'population_counts',
-             {'problems': ['one object for %d sub-models: names %s, '
-                           'separate objects: %s' % (k, names, want)]},
-             feats)
+             {'problems': ['one object reachable through several '
+                           'sub-models: names %s, separate objects: %s' % (
+                               names, want)]}, feats)
         return
     dims = ['d%d' % i for i in range(pop.n_dim())]
     pop.set_dim_names(dims)
@@ -527,6 +555,8 @@ def _same_object_case(ctx, rng, n_ids):
         _bad(ctx, 'population_counts',
              {'problems': ['dimension names %s after set_dim_names(%s)' % (
                  pop.get_dim_names(), dims)]}, feats)
+        return
+    _counts_agree(ctx, pop, n_ids, feats, 'shared object, ' + shape)
 
 
 def _reduced_inner_select_case(ctx, rng, n_ids):
